@@ -345,11 +345,11 @@ def read_token(rrows, token, defaults, element_names, transform=None):
 
 def run(chk):
     prog = chk.prog
-    r1_atom_types(chk)
-    r2_bond_types(chk)
-    r3_records(chk)
-    r4_siblings(chk)
-    r5_ensembles(chk)
+    chk.call(r1_atom_types, chk)
+    chk.call(r2_bond_types, chk)
+    chk.call(r3_records, chk)
+    chk.call(r4_siblings, chk)
+    chk.call(r5_ensembles, chk)
 
 
 def r1_atom_types(chk):
